@@ -67,6 +67,7 @@ def run(ctx):
     _check_cached_dep(ctx, model, model.cls(f"{DEP}:DependencyMapper"),
                       model.cls(f"{DEP}:CachedDependencyMapper"))
     _variants(ctx, model)
+    _explicit_base_calls(ctx, model)
     _float_sibling(ctx, model)
     _purity(ctx, model)
     _optimizer(ctx, model)
@@ -802,6 +803,58 @@ def _is_table_use(fn, attr):
     return False
 
 
+def _explicit_base_calls(ctx, model):
+    """Every memoizing mapper class of the package -- whichever module it lives
+    in -- that reaches a base class's method by naming the class
+    (`CachedMapper.__call__(self, expr, ...)`) hands over itself as the
+    receiver.  A call that starts with one of the method's other parameters
+    (`CachedMapper.__call__(expr, prec, ...)`) takes the expression for the
+    mapper: the class cannot be used at all, so it does not return what its
+    non-memoizing counterpart returns."""
+    cm = model.cls(f"{M}:CachedMapper")
+    n_calls = 0
+    for c in model.classes.values():
+        if not (model.is_subclass(c, cm) or c is cm):
+            continue
+        bases = {k.name: k for k in model.mro(c) if isinstance(k, ClassInfo)}
+        for name, mem in c.members.items():
+            if mem.kind != "func" or not mem.node.args.args or \
+                    {"staticmethod", "classmethod"} & set(mem.decorators):
+                continue
+            me = mem.node.args.args[0].arg
+            others = {a.arg for a in mem.node.args.args[1:]}
+            for call in ast.walk(mem.node):
+                if not (isinstance(call, ast.Call) and
+                        isinstance(call.func, ast.Attribute) and
+                        isinstance(call.func.value, ast.Name) and
+                        call.func.value.id in bases):
+                    continue
+                target = model.lookup(bases[call.func.value.id],
+                                      call.func.attr)
+                if target is None or target.kind != "func" or \
+                        {"staticmethod", "classmethod"} & set(target.decorators):
+                    continue
+                n_calls += 1
+                first = call.args[0] if call.args else None
+                ok = isinstance(first, ast.Name) and first.id == me
+                definite = first is None or (isinstance(first, ast.Name)
+                                             and first.id in others)
+                if ok or not definite:
+                    continue
+                ctx.ob(f"S/explicit-base-call/{c.name}.{name}/receiver", False,
+                       c.module.loc(call),
+                       f"{c.name}.{name} calls {ast.unparse(call.func)}("
+                       f"{', '.join(ast.unparse(a) for a in call.args)}) "
+                       f"without handing over '{me}': the first argument is "
+                       "taken for the mapper, so every call of this memoizing "
+                       "mapper fails (AttributeError: ... has no attribute "
+                       "'_cache') where its non-memoizing counterpart answers")
+    ctx.floor("explicit base-class calls in memoizing mappers", n_calls, 8)
+    ctx.ob("S/explicit-base-call/receiver", True, cm.loc(),
+           f"{n_calls} calls of the form Base.method(self, ...) in memoizing "
+           "mapper classes looked at")
+
+
 def _variants(ctx, model):
     cm = model.cls(f"{M}:CachedMapper")
     for ckey, bkey in CACHED_VARIANTS:
@@ -1295,9 +1348,96 @@ def _judge_varargs_remover(model, var, fn):
     return wit
 
 
+def _optimizer_gathers_every_method(ctx, model, m):
+    """The generated class carries its own definition of every method the
+    decorated class responds to -- inherited ones and aliases
+    (`map_product = map_sum` in a base class) included, each made from the
+    source of the function that attribute *is* (an alias bound by name in the
+    generated class would follow an override of the aliased method instead).
+    Path rule over one general round of the gathering loop in
+    optimize_mapper: a round either stores a definition under the attribute's
+    name or skips the attribute for being a dunder or a property."""
+    from .. import cfg
+    from ..rules import loop_body_fn
+    _, opt = model.func(f"{OPT}:optimize_mapper")
+    loops = []
+    for fn in ast.walk(opt):
+        if not isinstance(fn, ast.FunctionDef):
+            continue
+        for st in fn.body:
+            if isinstance(st, ast.For) and isinstance(st.iter, ast.Call) and \
+                    ast.unparse(st.iter.func) == "dir" and \
+                    isinstance(st.target, ast.Name):
+                loops.append((fn, st))
+    if len(loops) != 1:
+        raise AnalysisError("optimize_mapper: the loop over dir(cls) that "
+                            "gathers the method definitions was not found")
+    fn, loop = loops[0]
+    name = loop.target.id
+    stores = {t.value.id for st in ast.walk(loop) if isinstance(st, ast.Assign)
+              for t in st.targets if isinstance(t, ast.Subscript)
+              and isinstance(t.value, ast.Name)}
+    if len(stores) > 1:
+        # the table of definitions is the one the class's own methods went
+        # into before the loop
+        inside = {id(x) for x in ast.walk(loop)}
+        outside = {t.value.id for st in ast.walk(fn)
+                   if isinstance(st, ast.Assign) and id(st) not in inside
+                   for t in st.targets if isinstance(t, ast.Subscript)
+                   and isinstance(t.value, ast.Name)}
+        stores &= outside
+    if len(stores) != 1:
+        raise AnalysisError("optimize_mapper: the table the gathering loop "
+                            "stores definitions into was not identified")
+    table = stores.pop()
+    body = loop_body_fn(fn, loop)
+    skipped, n_store, n_paths = [], 0, 0
+    for path in cfg.paths(body, loop_mode="1"):
+        if path and path[-1][0] in ("raise",):
+            continue
+        n_paths += 1
+        stored = False
+        kind_guard = False
+        guards = []
+        for it in path:
+            if it[0] == "stmt" and isinstance(it[1], ast.Assign) and any(
+                    isinstance(t, ast.Subscript) and isinstance(t.value, ast.Name)
+                    and t.value.id == table for t in it[1].targets):
+                stored = True
+            if it[0] == "cond":
+                src = ast.unparse(it[1])
+                guards.append(("" if it[2] else "not ") + f"({src})")
+                calls = {ast.unparse(c.func).split(".")[-1]
+                         for c in ast.walk(it[1]) if isinstance(c, ast.Call)}
+                names = {x.id for x in ast.walk(it[1])
+                         if isinstance(x, ast.Name)} | {
+                    x.attr for x in ast.walk(it[1])
+                    if isinstance(x, ast.Attribute)}
+                if ("startswith" in calls and not it[2]) or (
+                        it[2] and "isinstance" in calls and
+                        names & {"property", "cached_property"}):
+                    kind_guard = True
+        if stored:
+            n_store += 1
+        elif not kind_guard:
+            skipped.append(" and ".join(guards) or "unconditionally")
+    ctx.floor("optimizer: gathering rounds that store a definition", n_store, 1)
+    ctx.ob("P/optimizer/every-attribute-gets-its-own-definition", not skipped,
+           m.loc(loop),
+           f"{n_paths} ways through a round of the gathering loop: each stores "
+           f"a definition in {table} or skips a dunder / a property" if not skipped
+           else "optimize_mapper leaves an attribute of the class without a "
+           "definition of its own in the generated class when "
+           + "; ".join(skipped[:2]) + ": what the generated class answers for "
+           "that method is then whatever the name resolves to there (an alias "
+           "such as IdentityMapper.map_product = map_sum follows a subclass's "
+           "override of map_sum, which the original class does not)")
+
+
 def _optimizer(ctx, model):
     m = model.repo.module(OPT)
     _cached_ast_ownership(ctx, model, m)
+    _optimizer_gathers_every_method(ctx, model, m)
     # (a) _VarArgsRemover
     var = model.cls(f"{OPT}:_VarArgsRemover")
     vc = var.members.get("visit_Call")
